@@ -259,6 +259,22 @@ def literal_form_cells(widths):
                     pick_lit_when = 0 if form == "ifexpr-lit-else" else 1
                     spec = lambda P, b, c, k=k, pl=pick_lit_when: P.ite((c != 0) if pl else (c == 0), P.const(k), b)
                     merges.append(("clocked", Cell(f"{form}|{k}|{tt}", [("b", tt), ("c", BIT)], tt, body, spec, setup=setup, range_check=True)))
+    # typed constants of a narrower (or equal) vector type in the same places: the number arrives (sign extension for negative Signed constants)
+    from ..cells import literal_src
+    for ts, tt in ((S(2), S(3)), (S(2), S(4)), (S(3), S(3)), (U(2), S(3)), (U(2), U(4)), (U(3), U(3))):
+        T = port_type_src(tt)
+        for k in sorted({ts.lo(), ts.hi(), 0, -1 if ts.signed else 1}):
+            lit = literal_src(ts, k & ((1 << ts.w) - 1))
+            forms = (
+                ("typed-const-assign", "concurrent", f"{{o}} <<= {lit}", ""),
+                ("typed-const-ctor", "concurrent", f"{{o}} <<= {T}({lit})", ""),
+                ("typed-const-init-signal", "clocked", f"c05l{{cellno}} = Signal[{T}]({lit})\n{{o}} <<= c05l{{cellno}}", ""),
+                ("typed-const-init-variable", "clocked", f"c05m{{cellno}} = Variable[{T}]({lit})\n{{o}} <<= c05m{{cellno}}", ""),
+                ("typed-const-init-outer-signal", "concurrent", f"{{o}} <<= c05n{{cellno}}", f"c05n{{cellno}} = Signal[{T}]({lit}, name='c05n{{cellno}}')"),
+                ("typed-const-next-attr", "clocked", f"{{o}}.next = {lit}", ""),
+            )
+            for fname, ctx, body, local in forms:
+                accept.append((ctx, Cell(f"{fname}|{ts}={k}->{tt}", [], tt, body, lambda P, k=k: P.const(k), local=local)))
     # Null / Full as one operand of a merge: the fill applies to the TARGET's width, whatever the other operand's width
     for ws, wt in ((2, 3), (1, 3), (3, 3)):
         for kind in ("U", "S", "BV"):
